@@ -94,7 +94,8 @@ C10_AsOffsetP(L, X, T) ==
      /\ l.ok /\ Inst(l.dn, l.sod, l.ns) = InstOf(L.a) /\ X.off = L.e.o
      /\ Diff(InstOf(X), InstOf(L.a)) = Neg(MulSeq(W(L.e.o), <<R[4], R[5], R[6]>>, 1))
 
-\* C09: a clock-field setter changes that field only (local reading); refused iff out of range
+\* C09: a clock-field setter changes that field only (local reading); refused iff the value is out of range
+\* or the result is not a representable instant
 LocalFields(v) == LET l == LocalOf(InstOf(v), v.off)
                   IN [dn |-> l.dn, hour |-> Hour(l.sod), minute |-> Minute(l.sod), second |-> Second(l.sod),
                       milli |-> Milli(l.ns), micro |-> Micro(l.ns), nano |-> l.ns]
@@ -106,6 +107,10 @@ C09_SetFrameP(L, X, T) ==
   CalledP(L, {"dt_set"}) /\ L.e.f \in ClockFields =>
      LET v == ToInt(L.e.v)  f == L.e.f  before == LocalFields(L.a)  after == LocalFields(X) IN
      IF v > ClockMax(f) THEN L.out = ErrOOR /\ X = L.a
+     \* at the two ends of the range the edited local reading may denote an instant outside it: refused as well
+     ELSE IF LET l == LocalOf(InstOf(L.a), L.a.off)  c == SetClock(l.sod, l.ns, f, v)
+             IN ~UtcOf([dn |-> l.dn, sod |-> c[1], ns |-> c[2]], L.a.off).ok
+          THEN L.out = ErrOOR /\ X = L.a
      ELSE /\ OkP(L) /\ FieldOf(after, f) = v /\ after.dn = before.dn /\ X.off = L.a.off
           /\ \A g \in {"hour", "minute", "second"} \ {f} : FieldOf(after, g) = FieldOf(before, g)
           /\ (f \in {"hour", "minute", "second"} => after.nano = before.nano)
